@@ -333,22 +333,33 @@ func SelectDimension(data any, dimensions []*IndexSelector) (any, error) {
 	case RANGE:
 		{
 			index := index.GetRange()
+			array, ok := data.([]any)
+			if !ok {
+				return nil, EXPECTATION_FAILED.Extend(fmt.Sprintf("failed to select range. range selectors are not valid on %T type", data))
+			}
 			begin := index[0]
 			if begin == -1 {
 				begin = 0
 			}
 			end := index[1]
 			if end == -1 {
-				end = len(data.([]any))
+				end = len(array)
 			}
-			return SelectDimension(data.([]any)[begin:end], dimensions[1:])
+			if begin > end || end > len(array) {
+				return nil, EXPECTATION_FAILED.Extend(fmt.Sprintf("failed to select range. range (%d:%d) is outside an array of %d items", begin, end, len(array)))
+			}
+			return SelectDimension(array[begin:end], dimensions[1:])
 		}
 	case INDEX:
 		{
 			index := index.GetIndex()
+			array, ok := data.([]any)
+			if !ok {
+				return nil, EXPECTATION_FAILED.Extend(fmt.Sprintf("failed to select index. index selectors are not valid on %T type", data))
+			}
 			if index == -1 {
 				slice := make([]any, 0)
-				for _, item := range data.([]any) {
+				for _, item := range array {
 					rs, err := SelectDimension(item, dimensions[1:])
 					if err != nil {
 						return nil, err
@@ -357,7 +368,10 @@ func SelectDimension(data any, dimensions []*IndexSelector) (any, error) {
 				}
 				return slice, nil
 			}
-			return SelectDimension(data.([]any)[index], dimensions[1:])
+			if index >= len(array) {
+				return nil, EXPECTATION_FAILED.Extend(fmt.Sprintf("failed to select index. index %d is outside an array of %d items", index, len(array)))
+			}
+			return SelectDimension(array[index], dimensions[1:])
 		}
 	default:
 		{
